@@ -50,7 +50,8 @@ Inductive op :=
 | OReset (expected_world : world)
 | OInit (agent : nat) (sp : start_pos) (oracle : list ip) (expected_view : view)
 | OSetView (agent : nat) (v : view)
-| ORemap (m : mapping) (expected_world : world).      (* dynamic addresses: reset with re-labelling *)
+| ORemap (m : mapping) (expected_world : world)       (* dynamic addresses: reset with re-labelling *)
+| OEquiv (agent : nat) (m : mapping) (a : gaction).   (* hypotheses of the equivariance theorem for the next action *)
 
 Fixpoint run (w : world) (views : list view) (ops : list op) : list bool :=
   match ops with
@@ -73,6 +74,8 @@ Fixpoint run (w : world) (views : list view) (ops : list op) : list bool :=
       let w0 := reset w in
       let w' := rekey_world m w0 in
       (valid_mapping w0 m && world_eqb w' ew) :: run w' views tl
+  | OEquiv ag m a :: tl =>
+      equiv_ready m w (nth ag views (mk_view [] [] [] [] [] [])) [a] :: run w views tl
   end.
 
 Definition mk_mapping (ips : list (ip * ip)) (nets : list (net * net)) : mapping :=
